@@ -388,6 +388,22 @@ func c07Gen(g *core.Gen) {
 		}
 	}
 	g.Emit(&c07Case{Kind: "limits"})
+	// the widest Cauchy codes the constructor accepts (data + parity = 65535): two lost data shards whose indices
+	// differ by each power of two (and the symmetric choice of two parity rows in the tallest code), so that no
+	// numbering of the evaluation points that repeats with a period is left unseen
+	for k := 0; k < 16; k++ {
+		for _, j := range []int{0, 1, 1<<k - 1, 65532 - 1<<k} {
+			if j < 0 || j+1<<k > 65532 {
+				continue
+			}
+			if !g.Thorough() && j != 0 && k != 15 && k != 8 {
+				continue
+			}
+			g.Emit(&c07Case{Kind: "explicit", Coder: "cauchy", D: 65533, P: 2, MissD: []int{j, j + 1<<k}, AvailP: []int{0, 1}, Len: 2, G: 1 + k%3})
+			g.Emit(&c07Case{Kind: "explicit", Coder: "cauchy", D: 2, P: 65533, MissD: []int{0, 1}, AvailP: []int{j, j + 1<<k}, Len: 2, G: 1 + k%3})
+		}
+	}
+	g.Emit(&c07Case{Kind: "explicit", Coder: "cauchy", D: 65532, P: 3, MissD: []int{0, 32768, 65531}, AvailP: []int{0, 1, 2}, Len: 4, G: 2})
 	// a slice of the small grid on the non-SSSE3 dispatch path (shards long enough for the bulk kernels)
 	for _, kind := range []string{"cauchy", "vandermonde"} {
 		for _, dp := range [][2]int{{3, 2}, {5, 4}, {6, 5}} {
@@ -601,7 +617,7 @@ func init() {
 	core.Register(&core.Prop{
 		ID:    "C07",
 		Level: "model_checking",
-		Rule: "bounded-exhaustive erasure patterns: both coders x every (d<=6,p<=5) (thorough d<=8,p<=6) x EVERY subset of missing data shards x EVERY subset of missing parity shards x shard length {2,4,14,16,18,32,34,66} x goroutines {1,2,3,5}; Vandermonde parity also compared with the reference sum; structured large code (140,260): 2-erasures with only parity rows {0,e} available for every e (contains the construction's singular pairs), and 3-erasures built on every column pair whose 2x2 minor vanishes (zero pivots, i.e. row swaps during elimination) x every third column x three row sets; 3-erasures on columns that agree modulo q under rows 65535/q and neighbours (q = 3, 5, 17, 257; singular systems met right after a row swap); tight patterns on (8,12),(5,12),(3,14) (thorough more): every k-subset of missing data x every k-subset of surviving parity; Cauchy (140,20); the documented limits (incl. 32768 / 32767 / 257 / 256 data shards with 3 parity rows and 65535 parity rows for 1, 3 and 5 data shards: the highest rows are compared with the definition and used for reconstruction). " +
+		Rule: "bounded-exhaustive erasure patterns: both coders x every (d<=6,p<=5) (thorough d<=8,p<=6) x EVERY subset of missing data shards x EVERY subset of missing parity shards x shard length {2,4,14,16,18,32,34,66} x goroutines {1,2,3,5}; Vandermonde parity also compared with the reference sum; the widest Cauchy codes (65533+2, 2+65533, 65532+3) with two lost data shards / two available parity rows whose indices differ by each power of two; structured large code (140,260): 2-erasures with only parity rows {0,e} available for every e (contains the construction's singular pairs), and 3-erasures built on every column pair whose 2x2 minor vanishes (zero pivots, i.e. row swaps during elimination) x every third column x three row sets; 3-erasures on columns that agree modulo q under rows 65535/q and neighbours (q = 3, 5, 17, 257; singular systems met right after a row swap); tight patterns on (8,12),(5,12),(3,14) (thorough more): every k-subset of missing data x every k-subset of surviving parity; Cauchy (140,20); the documented limits (incl. 32768 / 32767 / 257 / 256 data shards with 3 parity rows and 65535 parity rows for 1, 3 and 5 data shards: the highest rows are compared with the definition and used for reconstruction). " +
 			"Oracle: too few parity => NotEnoughParityShardsError; Cauchy always exact; Vandermonde exact iff the reference determinant of (lowest available rows x missing columns) != 0, else error or exact; nil => exact; supplied data shards unchanged; the shard lists are windows into longer lists, whose entries behind the window must not change; whenever the highest parity shards are unavailable the call is repeated with the parity list cut off behind the last available shard, as a window with non-nil entries behind it, and must give the same outcome. non-trivial = every case (all contain reconstructions)",
 		Assumptions: []string{"the statement does not constrain supplied parity shards; they are not compared"},
 		NewCase:     func() interface{} { return &c07Case{} },
